@@ -30,6 +30,7 @@ import time
 sys.path.insert(0, os.path.dirname(os.path.abspath(__file__)))
 # bound on the number of children / elements per node; the thorough tier of the driver raises it
 DEPTH = int(os.environ.get("MIRSYM_DEPTH", "3"))
+import z3
 from mirsym import Engine, parse_mir, STD_MODELS, Unsupported, PanicFound, Ref, Opaque, is_sym
 
 
@@ -336,6 +337,69 @@ def main():
                                 probs.append("end() map is %s" % (sorted(fin.items()),))
                         return probs
                     drive({"serializer": label, "fields": n, "failing": bad}, steps, state, endf, judge)
+        # ---- the Duration wrapper: SerializeTimestamp::end assembles secs + nanos into a chrono duration
+        MAXMS = 2 ** 63 - 1
+        secs, nanos = z3.Int("secs"), z3.Int("nanos")
+
+        def td_seconds(e, m, a):
+            v = a[0]
+            # chrono panics outside +-i64::MAX milliseconds
+            if e.check(z3.Or(v * 1000 > MAXMS, v * 1000 < -MAXMS)):
+                e.violations.append({"kind": "panic", "message": "TimeDelta::seconds out of bounds", "function": "end", "model": e.model_inputs()})
+                if not e.check(z3.And(v * 1000 <= MAXMS, v * 1000 >= -MAXMS)):
+                    raise PanicFound("TimeDelta::seconds out of bounds", None)
+                e.solver.add(z3.And(v * 1000 <= MAXMS, v * 1000 >= -MAXMS))
+            return ("td", v * 10 ** 9)
+
+        def td_checked_add(e, m, a):
+            x, y = (a[0] if not isinstance(a[0], Ref) else e.read_path(a[0].frame, a[0].local, list(a[0].proj))), (a[1] if not isinstance(a[1], Ref) else e.read_path(a[1].frame, a[1].local, list(a[1].proj)))
+            t = x[1] + y[1]
+            if e.decide(z3.And(t <= MAXMS * 10 ** 6 + 999999, t >= -MAXMS * 10 ** 6 - 999999)):
+                return ("Some", ("td", t))
+            return ("None",)
+
+        dur_extern = [
+            (r"^TimeDelta::seconds$", td_seconds),
+            (r"^TimeDelta::(?:nanoseconds|microseconds|milliseconds)$", lambda e, m, a: ("td", a[0] * {"nanoseconds": 1, "microseconds": 1000, "milliseconds": 10 ** 6}[m.group(0).split("::")[1]])),
+            (r"^TimeDelta::checked_add$", td_checked_add),
+            (r"^<i32 as (?:std::convert::)?Into<i64>>::into$", lambda e, m, a: a[0]),
+            (r"^<i64 as From<i32>>::from$", lambda e, m, a: a[0]),
+            (r"^<TimeDelta as (?:std::convert::)?Into<Value>>::into$", lambda e, m, a: ("enum", "Value::Duration", [a[0]])),
+        ] + extern
+        endf = method("impl ser::SerializeStruct for SerializeTimestamp", "end")
+        stats["scenarios"] += 1
+        eng = Engine(fns, consts, dur_extern)
+        eng.discriminants = {"Result::Ok": 0, "Result::Err": 1}
+        eng.model_inputs = lambda: {"secs": eng.solver.model().eval(secs, model_completion=True).as_long(), "nanos": eng.solver.model().eval(nanos, model_completion=True).as_long()} if eng.check() else None
+        desc = {"serializer": "Duration wrapper (SerializeTimestamp::end)"}
+
+        def on_path(res, e):
+            want = secs * 10 ** 9 + nanos
+            ok = isinstance(res, tuple) and res[1] == "Result::Ok" and res[2][0][1] == "Value::Duration"
+            if ok:
+                t = res[2][0][2][0][1]
+                if e.check(t != want):
+                    mdl = e.solver.model()
+                    failures.append(dict(desc, problems=["the duration is not secs * 10^9 + nanos"],
+                                         secs=mdl.eval(secs, model_completion=True).as_long(), nanos=mdl.eval(nanos, model_completion=True).as_long()))
+                    return
+                stats["proved"] += 1
+            else:
+                failures.append(dict(desc, problems=["end() is not Ok(Duration): %s" % (str(res)[:160],)], secs=None, nanos=None))
+        # what the wrapper hands over: num_seconds() and subsec_nanos() of a chrono duration - same sign, |nanos| < 10^9, total within range
+        pre = [secs * 1000 <= MAXMS, secs * 1000 >= -MAXMS, nanos > -10 ** 9, nanos < 10 ** 9,
+               z3.Or(secs == 0, z3.And(secs > 0, nanos >= 0), z3.And(secs < 0, nanos <= 0)),
+               secs * 10 ** 9 + nanos <= MAXMS * 10 ** 6 + 999999, secs * 10 ** 9 + nanos >= -MAXMS * 10 ** 6 - 999999]
+        try:
+            eng.explore(lambda e: e.call_fn(endf, [[secs, nanos]]), None, on_path, pre)
+        except PanicFound as p:
+            mi = eng.violations[-1].get("model") if eng.violations else None
+            failures.append(dict(desc, problems=["panic reachable: %s" % p.msg], secs=(mi or {}).get("secs"), nanos=(mi or {}).get("nanos")))
+        if eng.violations and not (failures and failures[-1].get("serializer") == desc["serializer"]):
+            mi = eng.violations[0].get("model")
+            failures.append(dict(desc, problems=["panic reachable: %s" % eng.violations[0]["message"]], secs=(mi or {}).get("secs"), nanos=(mi or {}).get("nanos")))
+        stats["paths"] += eng.stats["paths"]
+        stats["functions"] |= eng.stats["functions"]
     except Unsupported as u:
         status = 2
         print("INCONCLUSIVE: unsupported: %s" % u)
